@@ -119,7 +119,7 @@ impl<'a> ExpressionEvaluator<'a> {
                     ));
                 };
                 Ok(vec![DataType::Bool(Bool(
-                    matches!(evaluated[0], DataType::Null) || *negated,
+                    matches!(evaluated[0], DataType::Null) != *negated,
                 ))])
             }
             BoundExpression::Between {
@@ -137,8 +137,16 @@ impl<'a> ExpressionEvaluator<'a> {
                     ));
                 };
 
+                // Comparisons with NULL are unknown, also under NOT BETWEEN.
+                if [&inner[0], &low[0], &high[0]]
+                    .iter()
+                    .any(|v| matches!(v, DataType::Null))
+                {
+                    return Ok(vec![DataType::Null]);
+                }
+
                 Ok(vec![DataType::Bool(Bool(
-                    (inner[0] >= low[0] && inner[0] <= high[0]) || *negated,
+                    (inner[0] >= low[0] && inner[0] <= high[0]) != *negated,
                 ))])
             }
             BoundExpression::Exists { query, negated } => {
@@ -163,8 +171,13 @@ impl<'a> ExpressionEvaluator<'a> {
                         "cannot apply unary operators to lists of values!".to_string(),
                     ));
                 };
+                // NULL [NOT] IN (...) is unknown.
+                if matches!(evaluated[0], DataType::Null) {
+                    return Ok(vec![DataType::Null]);
+                }
+
                 Ok(vec![DataType::Bool(Bool(
-                    set.contains(&evaluated[0]) || *negated,
+                    set.contains(&evaluated[0]) != *negated,
                 ))])
             }
             BoundExpression::Subquery { query, result_type } => {
@@ -356,7 +369,7 @@ impl<'a> ExpressionEvaluator<'a> {
 
         // Convert back to Blob and wrap as Text
         Ok(DataType::Bool(Bool(
-            !negated && lhs_blob.like(pattern_blob.as_str()?)?,
+            negated != lhs_blob.like(pattern_blob.as_str()?)?,
         )))
     }
 
